@@ -49,9 +49,13 @@ public:
     static type_t create_primitive(kind_t k, position_t = position_t()) { return type_t((int)k * 2); }
     bool is(kind_t k) const { return k == Constants::CONSTANT ? (id & 1) != 0 : (id >> 1) == (int)k; }
     type_t create_prefix(kind_t k) const { __CPROVER_assert(k == Constants::CONSTANT, "stub: only the CONSTANT prefix is modelled"); return type_t(id | 1); }
+#ifdef VERIF_TYPE_PREDS
+#include "type_preds.inc" /* REAL: the inline predicates of include/utap/type.h (is_integer() ... is_formula()) */
+#else
     bool is_integer() const { return (id >> 1) == (int)Constants::INT; }
     bool is_scalar() const { return (id >> 1) == (int)Constants::SCALAR; }
     bool is_location() const { return (id >> 1) == (int)Constants::LOCATION; }
+#endif
     /* constructed types record the frame they are built over and its size AT CONSTRUCTION (= the arity of the type):
        10000 + 1024 * kind-code + 16 * frame + arity */
     static type_t verif_over_frame(int code, int frame_which, int arity) { return type_t(10000 + 1024 * code + 16 * frame_which + arity); }
@@ -59,7 +63,9 @@ public:
     static type_t create_primitive(kind_t k) { return type_t(1000 + (int)k); }
 #endif
     /* identities 3000..3999 are array types; the element type of array type i is identity i + 10000 */
+#ifndef VERIF_TYPE_PREDS
     bool is_array() const { return id >= 3000 && id < 4000; }
+#endif
     type_t get_sub() const { return type_t(id + 10000); }
 };
 #ifdef VERIF_FRAME_ARENA
@@ -247,6 +253,7 @@ inline T* make_shared(A a, B b, C c) { return new T(a, b, c); }
 template <typename T> inline T move(T x) { return x; }
 }  // namespace std
 
+namespace std { struct ostream; }
 namespace UTAP {
 using std::vector;
 class expression_t
@@ -288,6 +295,15 @@ public:
     static expression_t create_sync(expression_t, synchronisation_t, position_t = position_t());
     static expression_t create_deadlock(position_t = position_t());
 
+#ifdef VERIF_VALUE_LOG
+    /* value accessors (C03 K2): they carry the REAL assertions of src/expression.cpp and log which node they are applied to */
+    int32_t get_value() const;
+    double get_double_value() const;
+    bool is_true() const;
+    std::ostream& print__contract(std::ostream& os, bool old = false) const;
+    std::ostream& print_bound_type(std::ostream& os, expression_t e) const;
+    std::ostream& print_query_clauses(std::ostream& os, bool old) const;
+#endif
     /* contracts of the recursive callees on a child (rule L12), defined in the TU */
     expression_t clone_deeper__contract() const;
     expression_t clone_deeper__contract(symbol_t from, symbol_t to) const;
